@@ -177,7 +177,8 @@ def check_element(run, name, el, dim, domain, D, complete, nodal, bubble, rng, l
         tail = pts[sum(len(x) for x in exp):]
         if rest == "faces+centre" and len(tail) == 7:
             cen = V.mean(0)
-            okf = sorted(tuple(np.round(t, 12)) for t in tail[:6]) == sorted(tuple(np.round(cen + 1.0 * e, 12)) for e in np.vstack([np.eye(3), -np.eye(3)]))
+            # literal VTK order of the mid-face nodes: x-, x+, y-, y+, z-, z+ (boundary tables, quadrature order and files rely on it)
+            okf = maxabs(tail[:6] - (cen + np.array([(-1, 0, 0), (1, 0, 0), (0, -1, 0), (0, 1, 0), (0, 0, -1), (0, 0, 1)], float))) < 1e-14
             if okf and maxabs(tail[6] - cen) < 1e-14:
                 run.ok(mon, unit=unit + ":node-layout")
             else:
@@ -206,7 +207,7 @@ def check_element(run, name, el, dim, domain, D, complete, nodal, bubble, rng, l
             comb = np.tensordot(cH[..., :nn], mono(nodal_pts, e), axes=(-1, 0))
         else:
             comb = cH[..., 0] * 1.0  # constant element: reproduces constants only
-        err = maxabs(comb - cm)
+        err = maxabs(comb - cm) / max(1.0, maxabs(m_grid))  # relative to the size of the monomial on the cell (intervals away from [-1, 1])
         if err > worst:
             worst, worst_e = err, e
     run.compare(mon, "element=%s clause=completeness monomial=%s" % (label, worst_e if worst > TOL else "-"),
@@ -263,6 +264,13 @@ def case_lagrange(order, dim, permute):
                          and np.all(onb[nv + ne: nv + ne + nf] == dim - 2) and np.all(onb[nv + ne + nf:] == 0))
             if dim == 1:
                 blocks_ok = np.allclose(P[:2, 0], [-1, 1]) and np.all(onb[2:] == 0)
+            # ... and the order inside the blocks from an independent statement of the VTK layout (which edge, which direction,
+            # which face), not from the element's own table
+            from ..oracles.cells import vtk_lagrange_grid
+            run.compare("element.ArbitraryOrderLagrange", "element=%s clause=node-layout-within-blocks" % label,
+                        maxabs(P - (-1.0 + 2.0 * vtk_lagrange_grid(order, dim) / order)), 1e-13,
+                        "%s: node a is not at the grid position the VTK Lagrange layout assigns to it" % label,
+                        unit="ArbitraryOrderLagrange:vtk-order", config=("lagrange-order", order, dim))
             if blocks_ok:
                 run.ok("element.ArbitraryOrderLagrange", unit="ArbitraryOrderLagrange:vtk-blocks", config=("lagrange-blocks", order, dim))
             else:
@@ -270,11 +278,21 @@ def case_lagrange(order, dim, permute):
                          "%s: points are not ordered vertices -> edge interiors -> face interiors -> volume interior" % label)
         check_element(run, "ArbitraryOrderLagrange", el, dim, "cube", order, ("tensor", order), True, None, rng,
                       label=label)
-        if run.tier == "thorough" and order <= 3:
-            # another interval: the basis must adapt to it
-            el2 = fem.element.ArbitraryOrderLagrange(order=order, dim=dim, permute=permute, interval=(0, 1))
+        # other intervals (constructor argument): the basis must adapt to them; moderate distances from the origin only (the
+        # monomial Vandermonde matrix of the implementation loses digits far away: not claimed)
+        ivs = [(0.0, 1.0)] if dim == 3 and run.tier == "quick" else [(0.0, 1.0), (-3.0, -1.0)] + ([(2.0, 5.0)] if order <= 4 else [])
+        if dim == 3 and order > 3:
+            ivs = ivs[:1] if run.tier == "thorough" else []
+        for lo_, hi_ in ivs:
+            el2 = fem.element.ArbitraryOrderLagrange(order=order, dim=dim, permute=permute, interval=(lo_, hi_))
             check_element(run, "ArbitraryOrderLagrange", el2, dim, "cube", order, ("tensor", order), True, None, rng,
-                          lo=0.0, hi=1.0, label=label + "[interval=(0,1)]")
+                          lo=lo_, hi=hi_, label=label + "[interval]")
+            if permute:
+                from ..oracles.cells import vtk_lagrange_grid
+                run.compare("element.ArbitraryOrderLagrange", "element=%s[interval] clause=node-layout-within-blocks" % label,
+                            maxabs(np.asarray(el2.points, float) - (lo_ + (hi_ - lo_) * vtk_lagrange_grid(order, dim) / order)), 1e-12,
+                            "%s: nodes of the element on another interval are not the scaled VTK grid positions" % label,
+                            unit="ArbitraryOrderLagrange:vtk-order[interval]", config=("lagrange-order-interval", order, dim, lo_))
     return fn
 
 
@@ -309,6 +327,9 @@ def _required():
     for order, dim, permute in lagrange_units():
         lab = "ArbitraryOrderLagrange(order=%d,dim=%d,permute=%s)" % (order, dim, permute)
         req += [lab + ":gradient", lab + ":nodal", lab + ":completeness"]
+        if not (dim == 3 and order > 3):
+            req += [lab + "[interval]:gradient", lab + "[interval]:nodal", lab + "[interval]:completeness"]
+    req += ["ArbitraryOrderLagrange:vtk-order", "ArbitraryOrderLagrange:vtk-order[interval]"]
     return req
 
 
